@@ -474,7 +474,9 @@ def model_calls(c, backend):
     fn, a = c["fn"], c["args"]
     if fn == "dt_unary":
         spec, W, f = a
-        return [("dt_unary", _operand_enc(spec, W, f))]
+        if backend == "rs" and c.get("stream") == "dt-unary-transition" and (W // T.MEG + f) % 2:
+            return None      # DateTime is pure Python in both backends: the compiled backend is modelled on every other transition probe (oracle: all)
+        return [("dt_unary", _operand_enc(spec, W, f)), ("dt_str", _operand_enc(spec, W, f))]
     if fn == "dt_timetz":
         spec, W, f = a
         return [("dt_timetz", _operand_enc(spec, W, f))]
@@ -543,7 +545,8 @@ def _proj_unary(po, extra, spec, W):
     return {"toordinal": d["toordinal"], "weekday": d["weekday"], "isoweekday": d["isoweekday"], "isocalendar": d["isocalendar"],
             "utcoffset": d["utcoffset"], "timestamp": d["timestamp"] if (spec is not None or _naive_ts_safe(W)) else None, "timetuple8": tt[:8] if tt and tt[0] != "E" else tt,
             "utctimetuple": ut, "date": d["date"], "time": d["time"][:6] if d["time"][0] != "E" else d["time"],
-            "hash": extra[7] if spec is not None else None, "type": extra[3]}
+            "hash": extra[7] if spec is not None else None, "type": extra[3],
+            "strings": [extra[0], d["isoformat"], extra[2], extra[1]]}
 
 
 def model_result(c, backend, outs):
@@ -553,6 +556,18 @@ def model_result(c, backend, outs):
         spec = a[0]
         if o[0] != 0:
             return o
+        so = outs[1]
+        strings = None
+        if so and so[0] == 0:
+            parts, cur = [], []
+            for ch in so[1:]:
+                if ch == -1:
+                    parts.append(cur)
+                    cur = []
+                else:
+                    cur.append(ch)
+            parts.append(cur)
+            strings = ["".join(chr(ch) if 0 <= ch < 256 else "?" for ch in part) for part in parts]
         (_, ordn, wd, iwd, iy, iw, idd, off, U, hk, y, mo, d, hh, mi, ss, yday, uflag, uy, umo, ud, uh, umi, us_, uwd, uyd, dy, dm, dd, th, tm, ts, tus) = o
         if spec is None:
             # naive timestamp: local time is UTC in the staged environment
@@ -564,7 +579,8 @@ def model_result(c, backend, outs):
                 "utctimetuple": [uy, umo, ud, uh, umi, us_, uwd, uyd, 0] if uflag == 0 else ["E", "OverflowError"],
                 "date": ["Date", dy, dm, dd], "time": ["Time", th, tm, ts, tus, 0],
                 # datetime_hash: hash(timedelta(days=toordinal, seconds, microseconds) - utcoffset(fold=0)): the wall value counted from ordinal 0
-                "hash": None if spec is None else hash(_dt.timedelta(microseconds=hk + T.US_DAY)), "type": "DateTime"}
+                "hash": None if spec is None else hash(_dt.timedelta(microseconds=hk + T.US_DAY)), "type": "DateTime",
+                "strings": strings}
     return o
 
 
